@@ -1,7 +1,7 @@
 --------------------------- MODULE Trace_C14 ---------------------------
 (* Trace validation for C14: per case the `lexed` event says whether the emitted file parses and, for the probe,   *)
-(* in which lexical class every occurrence of the marker landed and whether the string literal around it evaluates *)
-(* to the original text.  Clauses: the generator returns; the file parses; an occurrence is inside a string literal *)
+(* in which lexical class every occurrence of the marker landed and whether the string literal around it carries    *)
+(* the original text.  Clauses: the generator returns; the file parses; an occurrence is inside a string literal *)
 (* equal to the original (names, enumeration values, URIs), inside a comment, or - for names only - part of a      *)
 (* (legal, since the file parses) identifier.  Pred = what spec/Emit.tla says is unsafe under the listed deviations.*)
 EXTENDS Emit, Json, IOUtils, TLCExt, Sequences
@@ -22,8 +22,12 @@ Subj == IF cur.case.shape.kind = "payload" THEN cur.case.shape.at \o "/" \o cur.
 \* value equality is demanded where the literal is the text itself; URLs are normalised by the URL parser, URIs are embedded
 NeedsEqual(src) == src \in {"name", "enum"}
 \* a numeral at a facet is meant to be code: there it must be a Rust integer literal of the same value
+\* ("str": value_equal = the literal's value CONTAINS the original text - a name inside a longer fixed message is still data;
+\*  "fmt_str" = the literal is the format string of a formatting macro: there braces are code, so the text must be there
+\*  with its braces doubled - whatever the source)
 OccBad(p, o) == \/ o.cls \in {"code", "char"} /\ p.src # "name" /\ ~(p.cls \in NumClasses /\ o.cls = "code" /\ o.value_equal)
                 \/ o.cls = "str" /\ NeedsEqual(p.src) /\ ~o.value_equal
+                \/ o.cls = "fmt_str" /\ ~o.value_equal
 ProbeViol(p) == {V("marker_is_data", Subj, "string literal = original | comment" \o (IF p.src = "name" THEN " | identifier" ELSE ""), p.occ[i].cls) :
                    i \in {i \in 1..Len(p.occ) : OccBad(p, p.occ[i])}}
 
